@@ -8,6 +8,7 @@ package main
 import (
 	"fmt"
 	"strconv"
+	"strings"
 	"time"
 
 	"github.com/bluenviron/gohlslib/v2/pkg/playlist"
@@ -441,6 +442,10 @@ func (g *gen) media() *playlist.Media {
 		m.PreloadHint = g.preloadHint()
 	}
 	m.Endlist = bit(y, 2)
+	if rl := g.r.Fork(0x10E6); m.Map != nil && rl.Bool(1, 30) {
+		// a line longer than 64 KiB (an init section carried inline as a data: URI) in front of the first segment
+		m.Map.URI = "data:video/mp4;base64," + strings.Repeat("AAAAIGZ0eXBpc281", 4100+rl.Intn(200))
+	}
 	return m
 }
 
